@@ -488,9 +488,15 @@ def _run_iter_impl(case, truth, handed, process_table):
         arg = truth[0]
     elif via in OTHER_ITERABLES:
         arg = OTHER_ITERABLES[via](truth)
-    saved = oc.process_table
+    # the module global(s) of converters.py that hold the compiled function (`process_table` itself, or the name the
+    # compiled function is kept under when `process_table` is a Python wrapper around it)
+    import orso.compute.compiled as occ
+
+    slots = [n_ for n_, v_ in list(vars(oc).items()) if v_ is occ.process_table] or ["process_table"]
+    saved = {n_: getattr(oc, n_) for n_ in slots}
     if process_table is not None:
-        oc.process_table = process_table
+        for n_ in slots:
+            setattr(oc, n_, process_table)
     # an iterator that never stops is a wrong row count, not a hanging harness
     cap = sum(t.num_rows for t in truth) + 8
     try:
@@ -535,7 +541,8 @@ def _run_iter_impl(case, truth, handed, process_table):
     except Exception as e:
         return {"raised": "%s: %s" % (type(e).__name__, str(e)[:200])}
     finally:
-        oc.process_table = saved
+        for n_, v_ in saved.items():
+            setattr(oc, n_, v_)
 
 
 def wire_same_loose(a, b):
@@ -752,7 +759,7 @@ def run_roundtrip_impl(case):
         for t, c in zip(types, r):
             _check_cells(t, [c])
     names = list(case["names"])
-    if len(names) != len(types) or len(set(names)) != len(names):
+    if len(names) != len(types) or any(not isinstance(x, str) for x in names):
         raise ValueError("bad names")
     size = case.get("size")
     try:
@@ -778,8 +785,11 @@ def roundtrip_oracle(case, out, rows):
     size = case.get("size")
     exp = [[canon(c) for c in r] for r in (rows if size is None else rows[:size])]
     fails = []
-    if out["names"] != list(case["names"]):
-        fails.append(("round trip changed the column names", {"got": out["names"]}))
+    if out.get("arrow_names") != list(case["names"]):
+        fails.append(("round trip changed the column names", {"where": "the Arrow table", "got": out.get("arrow_names"),
+                                                               "columns": len(out.get("arrow_names") or []), "expected_columns": len(case["names"])}))
+    elif out["names"] != list(case["names"]):
+        fails.append(("round trip changed the column names", {"where": "the frame read back from the table", "got": out["names"]}))
     got = out["rows"]
     if len(got) != len(exp):
         fails.append(("round trip changed the number of rows", {"got": len(got), "expected": len(exp)}))
@@ -807,8 +817,16 @@ def roundtrip_model_line(case, rows):
 
 # ---- one frame used more than once (`seq`)
 
-SEQ_SOURCES = ("from_arrow", "from_arrow_gen", "generator", "list")
-SEQ_OBSERVERS = ("len", "rowcount", "shape", "iter")
+# how the frame of a session came to be: from Arrow tables (list / generator of tables), from a generator of tuples,
+# from a list of tuples, from dictionaries (the only kind whose `_nbytes` starts as None), or derived from another
+# frame (eagerly: head/slice, query; lazily: select, filter)
+SEQ_SOURCES = ("from_arrow", "from_arrow_gen", "generator", "list", "dicts", "derived-slice", "derived-query",
+               "derived-select", "derived-filter")
+SEQ_LAZY = ("from_arrow", "from_arrow_gen", "generator", "derived-select", "derived-filter")
+SEQ_FROM_ARROW = ("from_arrow", "from_arrow_gen")
+SEQ_UNIQUE_NAMES = ("dicts", "derived-select")  # built through a name -> value mapping / a lookup by name
+# calls that materialise the frame and read (or size) every row; `nbytes` / `materialize` are followed by len()
+SEQ_OBSERVERS = ("len", "rowcount", "shape", "iter", "nbytes", "materialize")
 SEQ_OPS = ("arrow", "pandas", "head", "fetchone", "fetchmany", "fetchall", "append", "names") + SEQ_OBSERVERS
 ARRAYSIZE = 100  # DataFrame.arraysize, what fetchmany() without a size fetches
 
@@ -830,6 +848,17 @@ def seq_frame(case, tables):
         pyrows += [tuple(c[i] for c in cols) for i in range(t.num_rows)]
     if src == "generator":
         return DataFrame(rows=(r for r in pyrows), schema=names)
+    if src == "dicts":
+        return DataFrame([dict(zip(names, r)) for r in pyrows])
+    if src.startswith("derived-"):
+        base = DataFrame(rows=list(pyrows), schema=names)
+        if src == "derived-slice":
+            return base.head(len(pyrows) + 3)
+        if src == "derived-query":
+            return base.query(lambda r: True)
+        if src == "derived-select":
+            return base.select(list(names))
+        return base.filter([True] * len(pyrows))
     return DataFrame(rows=list(pyrows), schema=names)
 
 
@@ -866,6 +895,12 @@ def run_seq_impl(case, tables):
                 outs.append({"n": len(df)})
             elif k == "rowcount":
                 outs.append({"n": df.rowcount})
+            elif k == "nbytes":
+                nb = df.nbytes()
+                outs.append({"n": len(df), "nbytes": nb})
+            elif k == "materialize":
+                df.materialize()
+                outs.append({"n": len(df)})
             elif k == "shape":
                 outs.append({"n": df.shape[0], "w": df.shape[1]})
             elif k == "iter":
@@ -882,7 +917,10 @@ def run_seq_impl(case, tables):
             elif k == "fetchall":
                 outs.append({"rows": _canon_rows(df.fetchall())})
             elif k == "append":
-                df.append(tuple(op[1]))
+                if case["source"] == "dicts":
+                    df.append(dict(zip([c["name"] for c in case["cols"]], op[1])))
+                else:
+                    df.append(tuple(op[1]))
                 outs.append({"rows": []})
             else:
                 raise InfraError("unknown seq op %r" % (op,))
@@ -904,7 +942,7 @@ def seq_mirror(all_rows, case, fetch_takes=True, outs=None):
     held at that moment, cut to its size; every observation sees all of them.
     -> (list of expected outputs, valid?)  An output is ("table", rows) | ("rows", rows) | ("names",) | ("error",)."""
     rows = list(all_rows)
-    lazy = case["source"] != "list"
+    lazy = case["source"] in SEQ_LAZY
     cursor = None if lazy else list(rows)  # eager: the rows the cursor has still to deliver
     appended = False
     exp, valid = [], True
@@ -939,12 +977,13 @@ def seq_mirror(all_rows, case, fetch_takes=True, outs=None):
                 cursor = [] if n is None else cursor[n:]
                 exp.append(("rows", got))
         elif k == "append":
-            if lazy:
-                valid = False  # `_rows.append` on an iterator raises: not generated
+            if case["source"] in SEQ_FROM_ARROW:
+                valid = False  # a RelationSchema validates the entry as a dictionary (C05's subject): not generated
                 exp.append(("error",))
             elif outs is not None and i < len(outs) and "raised" in outs[i]:
                 exp.append(("error",))  # the frame refused the row (what append accepts is C05's subject)
             else:
+                lazy = False  # (a lazily backed frame is materialised by append, then the row is added)
                 rows = rows + [[canon(c) for c in op[1]]]
                 appended = True
                 exp.append(("rows", []))
@@ -956,11 +995,11 @@ def seq_mirror(all_rows, case, fetch_takes=True, outs=None):
 
 def seq_lazy_fetch_at(case):
     """Index of the first cursor fetch made while the frame is still lazy, or None."""
-    lazy = case["source"] != "list"
+    lazy = case["source"] in SEQ_LAZY
     for i, op in enumerate(case["ops"]):
         if op[0] in ("fetchone", "fetchmany", "fetchall") and lazy:
             return i
-        if op[0] in ("arrow", "pandas", "head") or op[0] in SEQ_OBSERVERS:
+        if op[0] in ("arrow", "pandas", "head", "append") or op[0] in SEQ_OBSERVERS:
             lazy = False
     return None
 
@@ -999,10 +1038,10 @@ def seq_model_line(case, tables):
             chunks.append([[canon(p[i]) for p in pys] for i in range(pos, pos + len(ch))])
             pos += len(ch)
         enc_tables.append(chunks)
-    if case["source"] in ("from_arrow", "from_arrow_gen"):
+    if case["source"] in SEQ_FROM_ARROW:
         return "C11 seq " + wire.line(names, "arrow", enc_tables, seq_model_ops(case))
     rows = [r for t in enc_tables for ch in t for r in ch]
-    return "C11 seq " + wire.line(names, "gen" if case["source"] == "generator" else "list", rows, seq_model_ops(case))
+    return "C11 seq " + wire.line(names, "gen" if case["source"] in SEQ_LAZY else "list", rows, seq_model_ops(case))
 
 
 def _rows_same(exp, got):
@@ -1087,7 +1126,7 @@ def seq_impl_matches(case, outs, mirror):
             return False
         if k == "pandas" and o["ids"] != [r[0] for r in e[1]]:
             return False
-        if k in ("len", "rowcount", "shape") and o["n"] != len(e[1]):
+        if k in ("len", "rowcount", "shape", "nbytes", "materialize") and o["n"] != len(e[1]):
             return False
         if k in ("iter", "head") and not _rows_same(e[1], o["rows"]):
             return False
@@ -1122,7 +1161,7 @@ def seq_agrees(case, outs, mouts, mfinal):
         elif k == "pandas":
             if m[0] != "table" or m[2] != o["num_rows"] or [r[0] for r in m[3]] != o["ids"]:
                 return False
-        elif k in ("len", "rowcount", "shape"):
+        elif k in ("len", "rowcount", "shape", "nbytes", "materialize"):
             if m[0] != "rows" or len(m[1]) != o["n"]:
                 return False
         else:
@@ -2129,7 +2168,7 @@ def valid_case(c):
     try:
         k = c.get("kind")
         if k == "iter":
-            if not c["cols"] or len({x["name"] for x in c["cols"]}) != len(c["cols"]):
+            if not c["cols"] or any(not isinstance(x["name"], str) for x in c["cols"]):
                 return False
             if not isinstance(c["tables"], list) or c.get("via") == "single" and len(c["tables"]) != 1:
                 return False
@@ -2158,8 +2197,12 @@ def valid_case(c):
             return c.get("size") is None or c["size"] >= 1
         if k == "seq":
             cols = c["cols"]
-            if not cols or len({x["name"] for x in cols}) != len(cols) or c.get("source") not in SEQ_SOURCES:
+            if not cols or any(not isinstance(x["name"], str) for x in cols) or c.get("source") not in SEQ_SOURCES:
                 return False
+            if c["source"] in SEQ_UNIQUE_NAMES and len({x["name"] for x in cols}) != len(cols):
+                return False
+            if c["source"] == "dicts" and not any(ch for t in c["tables"] for ch in t):
+                return False  # the schema of such a frame is read off its first dictionary
             if cols[0]["type"] != "int64" or any(x["type"] not in SEQ_COLTYPES for x in cols):
                 return False
             if not isinstance(c["tables"], list) or not c["tables"] or not isinstance(c["ops"], list) or len(c["ops"]) > 16:
@@ -2178,7 +2221,7 @@ def valid_case(c):
                 elif op[0] == "append":
                     # only frames whose schema is a list of names take a plain tuple (a frame built by
                     # from_arrow has a RelationSchema and validates the entry as a dictionary - C05's subject)
-                    if c["source"] not in ("generator", "list"):
+                    if c["source"] in SEQ_FROM_ARROW:
                         return False
                     if len(op) != 2 or not isinstance(op[1], list) or len(op[1]) != len(cols):
                         return False
@@ -2241,7 +2284,7 @@ def valid_case(c):
             return True
         if k == "schema":
             names = [x["name"] for x in c["cols"]]
-            if not c["cols"] or len(set(names)) != len(names) or c.get("via", "schema") not in ("schema", "table"):
+            if not c["cols"] or any(not isinstance(x, str) for x in names) or c.get("via", "schema") not in ("schema", "table"):
                 return False
             if c.get("identities") and c.get("via") == "table":
                 return False
@@ -2476,13 +2519,36 @@ def _model_departs(ctx, case, msg):
     ctx.hit("model-departs-from-the-specification-where-the-implementation-does-not")
 
 
+def source_items_moved():
+    """Extraction items (harness/extractors/c11*.py) whose value, read from the working tree on this run, differs from
+    the pinned one (environment items excepted).  Empty on the unchanged tree."""
+    import json
+    import os
+
+    from .. import extract
+
+    try:
+        with open(os.path.join(extract.GEN_DIR, "generated.json"), encoding="utf-8") as f:
+            return list(json.load(f).get("arrow.differs_from_pinned", []))
+    except Exception:
+        return []
+
+
 def settle_departures(ctx):
     deps = getattr(ctx, "_c11_departures", [])
     if not deps:
         return
     ctx._c11_departures = []
     if not ctx.violations:
-        raise InfraError(deps[0][1])
+        moved = source_items_moved()
+        if not moved:
+            raise InfraError(deps[0][1])
+        # No failing input so far, but the definitions the model is assembled from were generated from a source that
+        # differs from the pinned one in these items: the model follows the source.  That is a finding about the
+        # source ("the code, as translated, no longer has the property on this input"), not a fault of the harness:
+        # it is recorded as a correspondence disagreement, which makes the runner search on (`intensify`) and, if no
+        # failing input turns up, report `no-failing-input-found` together with the theorems that stopped checking.
+        ctx.note("model_follows_changed_source", {"extraction_items_differing_from_pinned": moved, "first_departure": deps[0][1][:300]})
     for case, msg in deps[:5]:
         ctx.disagree(case, None, None, what="the model generated from the (changed) source departs from the specification "
                                            "on an input on which the implementation does not: " + msg[:60])
@@ -2558,6 +2624,8 @@ def evaluate(ctx, cases):
                             + "-longest-table")
                 for col in c["cols"]:
                     ctx.hit("coltype:" + col["type"].split("(")[0].split("[")[0])
+                for nc_ in name_class([col["name"] for col in c["cols"]]):
+                    ctx.hit("iter-names:" + nc_)
                 if c.get("stagger"):
                     ctx.hit("staggered-chunk-layout")
                 if any(len(t) != 1 for t in c["tables"]):
@@ -2600,12 +2668,23 @@ def evaluate(ctx, cases):
             sizes = [op[1] for op in c["ops"] if op[0] in ("arrow", "pandas")]
             if len(sizes) >= 2 and len(set(map(str, sizes))) >= 2:
                 ctx.hit("seq-conversions-with-different-sizes")
-            lazy_now = c["source"] != "list"
+            lazy_now = c["source"] in SEQ_LAZY
+            names_ = [x["name"] for x in c["cols"]]
+            for nc_ in name_class(names_):
+                ctx.hit("seq-names:" + nc_)
+            kinds_ = [op[0] for op in c["ops"]]
+            for i_ in range(len(kinds_)):
+                if kinds_[i_] == "append" and any(k_ in ("arrow", "pandas") for k_ in kinds_[:i_]) \
+                        and any(k_ in ("arrow", "pandas") for k_ in kinds_[i_ + 1:]):
+                    ctx.hit("seq-conversion-append-conversion")
+                    break
             for i_, op in enumerate(c["ops"]):
                 ctx.hit("seq-op:" + op[0])
                 if op[0] in ("fetchone", "fetchmany", "fetchall") and lazy_now:
                     ctx.hit("seq-fetch-on-still-lazy-frame(takes rows out of the frame)")
-                if op[0] in ("arrow", "pandas", "head") or op[0] in SEQ_OBSERVERS:
+                if op[0] == "append" and lazy_now:
+                    ctx.hit("seq-append-materialises-lazy-frame")
+                if op[0] in ("arrow", "pandas", "head", "append") or op[0] in SEQ_OBSERVERS:
                     if lazy_now and op[0] in ("arrow", "pandas"):
                         ctx.hit("seq-conversion-materialises-lazy-frame" + ("-limited" if op[1] is not None and op[1] >= 0 else ""))
                     lazy_now = False
@@ -2660,6 +2739,8 @@ def evaluate(ctx, cases):
             ctx.hit("kind:roundtrip")
             ctx.hit("rt-size:" + ("none" if size is None else "0" if size == 0 else "below" if size < len(rows) else "at-or-above"))
             ctx.hit("rt-lazy" if c.get("lazy") else "rt-eager")
+            for nc_ in name_class(list(c["names"])):
+                ctx.hit("rt-names:" + nc_)
             for t in c["types"]:
                 ctx.hit("rt-coltype:" + t.split("(")[0].split("[")[0])
         elif k == "schema":
@@ -2695,6 +2776,8 @@ def evaluate(ctx, cases):
             agree = (m[0] == o)
             ctx.hit("kind:field")
             ctx.hit("field:" + c["arrow"][0])
+            for nc_ in name_class([c["name"]]):
+                ctx.hit("field-name:" + nc_)
             if o[0] == "err":
                 ctx.hit("field-unmapped")
         ctx.case(c, nontrivial)
@@ -2869,6 +2952,10 @@ def schema_cases():
         [_scol("t1", "TIMESTAMP"), _scol("t2", "TIME"), _scol("t3", "TIMESTAMP", nullable=False), _scol("é 日本", "VARCHAR"),
          _scol("", "BLOB")],
     ]
+    # names: repeated, empty, differing by case / composition only, not NFC, very long (two routes back)
+    kinds = [("INTEGER", {}), ("VARCHAR", {}), ("DECIMAL", {"p": 10, "s": 2})]
+    for names in NAME_LISTS:
+        groups.append([_scol(n_, kinds[j % 3][0], nullable=j != 1, **kinds[j % 3][1]) for j, n_ in enumerate(names)])
     for cols in groups:
         yield {"kind": "schema", "cols": cols, "via": "schema"}
         yield {"kind": "schema", "cols": cols, "via": "table"}
@@ -2907,6 +2994,10 @@ def exhaustive_field_cases():
                 continue  # pyarrow refuses a non-nullable null field
             yield {"kind": "field", "arrow": d, "name": names[i % len(names)], "nullable": nullable}
             i += 1
+    # the name is carried over exactly (code point by code point), whatever the type and the nullability
+    for k_, n_ in enumerate(HARD_NAMES):
+        yield {"kind": "field", "arrow": [["int64"], ["string"], ["list_", ["int64"]], ["decimal128", 10, 2]][k_ % 4], "name": n_,
+               "nullable": k_ % 3 != 0}
     elems = [["int64"], ["string"], ["float64"], ["bool_"], ["binary"], ["date32"], ["date64"], ["timestamp", "us"],
              ["time32", "ms"], ["null"], ["decimal128", 10, 2], ["month_day_nano_interval"], ["struct"], ["dictionary"],
              ["list_", ["int64"]]]
@@ -2934,6 +3025,87 @@ INT_RANGE = {"int8": (-2**7, 2**7 - 1), "int16": (-2**15, 2**15 - 1), "int32": (
 TS_US_EDGES = [0, 1, -1, 1577934245678901, -31536000000000, 253370764800000000, -62135596800000000, 951782400000000]
 TEXTS = ["", "a", "nan", "None", "é", "日本語", "\U0001f600", "line\nbreak", "x" * 40, " "]
 FLOATS = [0.0, -0.0, 1.5, -2.25, 1e300, 5e-324, float("inf"), float("-inf"), float("nan"), 2.0**53, 0.1, 3.0]
+
+# ---- column / field names.  An Arrow field name is any string and a table may carry the same name more than once
+# (the two `id` columns of a join); a name is carried over code point by code point: no Unicode normalisation
+# (NFC / NFD / NFKC), no case folding, no stripping, no de-duplication.  Written with escapes on purpose.
+HARD_NAMES = [
+    "cafe\u0301", "caf\u00e9",                          # e + combining acute / precomposed (the NFC of the former)
+    "A\u030angstrom", "\u00c5ngstrom", "\u212bngstrom",  # A + ring / precomposed / ANGSTROM SIGN (a singleton)
+    "\u1100\u1161", "\uac00",                           # conjoining Hangul jamo / the syllable they compose to
+    "\u2126", "\u03a9",                                 # OHM SIGN / GREEK CAPITAL OMEGA
+    "s\u0323\u0307", "s\u0307\u0323", "\u1e69",         # two orders of combining marks / precomposed
+    "\u0301", "e\u0301\u0301",                          # a lone combining mark; two marks
+    "\ufb01le", "file", "\uff46\uff55\uff4c\uff4c", "x\u00b2", "\u2460",  # compatibility characters (NFKC changes them)
+    "\u0958", "\u0915\u093c",                           # composition exclusion: NFC *de*composes the former
+    "ID", "id", "Id", "\u0130d", "stra\u00dfe", "STRASSE",  # case
+    "", " ", "id ", " id", "\tid", "a\nb", "nul\x00name", "\x01\x7f",
+    "\ufeffbom", "a\u200db", "\u202eright-to-left", "\U0001f600", "\U0001f468\u200d\U0001f469", "\ud7ff\ue000\uffff",
+    "\U0010ffff", "x" * 300, "\u00e9" * 200 + "e\u0301" * 200, "n" * 5000,
+]
+NAME_LISTS = [
+    ["id", "name", "id"], ["k", "k", "k"], ["", ""], ["", "a", ""], ["ID", "id", "Id"], [" ", "", "  "],
+    ["cafe\u0301", "caf\u00e9"], ["caf\u00e9", "cafe\u0301", "caf\u00e9"], ["A\u030a", "\u00c5", "\u212b"],
+    ["\u1100\u1161", "\uac00"], ["\u2126", "\u03a9"], ["s\u0323\u0307", "s\u0307\u0323", "\u1e69"], ["\ufb01", "fi"],
+    ["\u0958", "\u0915\u093c"], ["x" * 300, "x" * 301, "x" * 300], ["n" * 5000, "n" * 5000], ["a\x00", "a", "a\x00b"],
+    ["\U0010ffff", "\ud7ff", ""], ["stra\u00dfe", "STRASSE", "strasse"],
+]
+_NAME_RANGES = [(0x20, 0x7e), (0xa0, 0x24f), (0x300, 0x36f), (0x370, 0x3ff), (0x900, 0x97f), (0x1100, 0x11ff), (0x1e00, 0x1eff),
+                (0x2100, 0x214f), (0x2460, 0x24ff), (0x3040, 0x30ff), (0xac00, 0xd7a3), (0xe000, 0xe0ff), (0xf900, 0xfaff),
+                (0xfb00, 0xfb06), (0xff00, 0xffef), (0x1d400, 0x1d7ff), (0x1f300, 0x1f64f), (0x2f800, 0x2fa1d), (0, 0x1f)]
+
+
+def rand_name(rng):
+    """Any string without surrogates: a hard name, random code points (combining marks, jamo, compatibility
+    characters, astral planes among them), or a very long name."""
+    r = rng.random()
+    if r < 0.45:
+        return rng.choice(HARD_NAMES)
+    if r < 0.93:
+        out = []
+        for _ in range(rng.choice([1, 1, 2, 3, 5, 8])):
+            lo, hi = rng.choice(_NAME_RANGES)
+            cp = rng.randint(lo, hi)
+            if 0xd800 <= cp <= 0xdfff:
+                cp = 0xe000
+            out.append(chr(cp))
+        return "".join(out)
+    return rng.choice(["x", "\u00e9", "e\u0301", "\uac00"]) * rng.choice([64, 255, 256, 1000, 4096])
+
+
+def rand_names(rng, n, plain=("a", "b", "name", "id", "x y")):
+    """Column names of an n-column table: mostly plain and distinct, otherwise hard names, with repeats."""
+    r = rng.random()
+    if r < 0.55:
+        return [rng.choice(plain) + str(j) for j in range(n)]
+    if r < 0.70:
+        base = rng.choice(NAME_LISTS)
+        return [base[j % len(base)] for j in range(n)]
+    names = [rand_name(rng) for _ in range(n)]
+    if n >= 2 and rng.random() < 0.4:
+        names[rng.randrange(1, n)] = names[0]  # the same name twice
+    return names
+
+
+def name_class(names):
+    import unicodedata
+
+    out = []
+    if len(set(names)) != len(names):
+        out.append("repeated")
+    if any(unicodedata.normalize("NFC", x) != x for x in names):
+        out.append("not-NFC")
+    if any(unicodedata.normalize("NFKC", x) != x for x in names):
+        out.append("not-NFKC")
+    if len({unicodedata.normalize("NFKC", x).casefold().strip() for x in names}) != len(set(names)):
+        out.append("distinct-only-by-composition/case/blanks")
+    if any(x == "" for x in names):
+        out.append("empty")
+    if any(len(x) >= 256 for x in names):
+        out.append("long(>=256)")
+    if any(ord(ch) > 0xffff for x in names for ch in x):
+        out.append("astral")
+    return out or ["plain"]
 
 
 def gen_cell(rng, ctype, null_p, allow_nan=True, nested_null=True):
@@ -3045,6 +3217,7 @@ def random_iter_case(ctx, quiet_known=False, ext=False):
         ncols = len(types)
     n = rng.choice([0, 1, 2, 3, 4, 5, 6, 8, 12, 20]) if rng.random() < 0.85 else rng.randint(21, 120)
     cols, columns = [], []
+    names = rand_names(rng, ncols, ("a", "b", "c", "col", "\u00e9", "a b", ""))
     for j, t in enumerate(types):
         null_p = rng.choice([0.0, 0.0, 0.2, 0.5, 1.0])
         if (quiet_known and t in INT_TYPES) or (ext and j == 0):
@@ -3053,7 +3226,7 @@ def random_iter_case(ctx, quiet_known=False, ext=False):
         if ext and j == 0:
             cells = [2**53 + 1 + i for i in range(n)]
         has_null = any(c is None for c in cells)
-        col = {"name": rng.choice(["a", "b", "c", "col", "é", "a b", ""]) + str(j), "type": t}
+        col = {"name": names[j], "type": t}
         if not has_null and rng.random() < 0.4:
             col["nullable"] = False
         cols.append(col)
@@ -3103,7 +3276,7 @@ def random_roundtrip_case(ctx, quiet_known=False):
             cells.append(c)
         columns.append(cells)
     rows = [[columns[j][i] for j in range(ncols)] for i in range(n)]
-    names = [rng.choice(["a", "b", "name", "é", "x y"]) + str(j) for j in range(ncols)]
+    names = rand_names(rng, ncols, ("a", "b", "name", "\u00e9", "x y"))
     size = rng.choice([None, None, 0, 1, 2, n, n + 1, max(0, n - 1)])
     case = {"kind": "roundtrip", "names": names, "types": types, "rows": rows, "size": size}
     if rng.random() < 0.3:
@@ -3127,10 +3300,26 @@ def exhaustive_seq_cases():
     tables = [[rows[:2]], [[]], [rows[2:]]]
     alphabet = [["arrow", None], ["arrow", 0], ["arrow", 1], ["arrow", 2], ["arrow", 4], ["len"], ["iter"],
                 ["head", 1], ["fetchone"], ["pandas", 2]]
-    for source in SEQ_SOURCES:
+    for source in SEQ_SOURCES[:5]:  # (the derived kinds: `exhaustive_session_cases`)
         for a in alphabet:
             for b in alphabet:
                 yield {"kind": "seq", "source": source, "cols": SEQ_COLS, "tables": tables, "ops": [a, b, ["arrow", None]]}
+
+
+def exhaustive_session_cases():
+    """Conversions repeated on ONE frame with edits in between: every triple of calls from
+    {arrow(), arrow(1), append, nbytes(), materialize(), fetchone()} on a frame of every construction kind, followed
+    by an unlimited conversion and len(); every conversion is judged against the rows the frame holds at that moment."""
+    rows = seq_rows(3)
+    tables = [[rows[:2]], [[]], [rows[2:]]]
+    alphabet = [["arrow", None], ["arrow", 1], ["append", [2**60, "new"]], ["nbytes"], ["materialize"], ["fetchone"]]
+    for source in SEQ_SOURCES:
+        al = [a for a in alphabet if a[0] != "append" or source not in SEQ_FROM_ARROW]
+        for a in al:
+            for b in al:
+                for c in al:
+                    yield {"kind": "seq", "source": source, "cols": SEQ_COLS, "tables": tables,
+                           "ops": [a, b, c, ["arrow", None], ["len"]]}
 
 
 def seq_corpus():
@@ -3150,6 +3339,13 @@ def seq_corpus():
     yield {"kind": "seq", "source": "generator", "cols": SEQ_COLS, "tables": one,
            "ops": [["arrow", 2], ["append", [7, "new"]], ["arrow", None], ["fetchone"], ["iter"]]}
     yield {"kind": "seq", "source": "from_arrow", "cols": SEQ_COLS, "tables": [[[]], [[]]], "ops": [["arrow", 1], ["arrow", None], ["len"]]}
+    # convert, append, convert again - several times over, sized or not in between, on every kind of frame that takes a row
+    for source in SEQ_SOURCES:
+        if source in SEQ_FROM_ARROW:
+            continue
+        yield {"kind": "seq", "source": source, "cols": SEQ_COLS, "tables": [[rows[:2]]],
+               "ops": [["arrow", None], ["append", [7, "c"]], ["arrow", None], ["arrow", 2], ["append", [2**60 + 1, None]], ["arrow", None],
+                       ["nbytes"], ["append", [9, "e"]], ["arrow", None], ["pandas", None], ["len"]]}
 
 
 def random_seq_case(ctx):
@@ -3157,7 +3353,7 @@ def random_seq_case(ctx):
     ncols = rng.choice([1, 2, 2, 3])
     types = ["int64"] + [rng.choice(SEQ_COLTYPES[1:]) for _ in range(ncols - 1)]
     n = rng.choice([0, 1, 2, 3, 4, 5, 6, 8]) if rng.random() < 0.9 else rng.randint(9, 40)
-    cols = [{"name": rng.choice(["id", "a", "é", "x y", ""]) + str(j), "type": t} for j, t in enumerate(types)]
+    cols = [{"name": n_, "type": t} for n_, t in zip(rand_names(rng, ncols, ("id", "a", "\u00e9", "x y", "")), types)]
     cols[0]["nullable"] = False
     columns = [[2**53 + 1 + i for i in range(n)]]
     for t in types[1:]:
@@ -3166,7 +3362,9 @@ def random_seq_case(ctx):
     rows = [[columns[j][i] for j in range(ncols)] for i in range(n)]
     tables = split_random(rng, rows, rng.choice([1, 1, 2, 3]))
     source = rng.choice(SEQ_SOURCES)
-    lazy = source != "list"
+    if source in SEQ_UNIQUE_NAMES and len({x["name"] for x in cols}) != len(cols) or source == "dicts" and n == 0:
+        source = "list"
+    lazy = source in SEQ_LAZY
     total = n
     ops = []
     for _ in range(rng.choice([1, 2, 2, 3, 3, 4, 5, 7])):
@@ -3189,7 +3387,8 @@ def random_seq_case(ctx):
         elif r < 0.92:
             k = rng.choice(["fetchone", "fetchone", "fetchmany", "fetchall"])
             ops.append([k, rng.choice([None, 0, 1, 2, total + 1])] if k == "fetchmany" else [k])
-        elif not lazy and source in ("generator", "list"):
+        elif source not in SEQ_FROM_ARROW:
+            lazy = False
             cell = [2**60 + len(ops)] + [gen_cell(rng, t, 0.3, allow_nan=False) for t in types[1:]]
             ops.append(["append", cell])
             total += 1
@@ -3561,6 +3760,36 @@ def per_type_cases():
                    "size": None if null_p == 0.0 else 4}
 
 
+def name_cases():
+    """Column names that are repeated, empty, differ only by case / composition / blanks, are not NFC, are very long:
+    every conversion direction (Arrow -> frame, frame -> Arrow -> frame, a frame built from Arrow converted back, a
+    frame used twice), with and without a limit, with and without rows."""
+    kinds = ["int64", "string", "float64"]
+    for names in NAME_LISTS + [[n_] for n_ in HARD_NAMES[::3]]:
+        w = len(names)
+        types = [kinds[j % 3] for j in range(w)]
+        rows = [[[2**53 + 1 + i, "r%d" % i, 0.5 + i][j % 3] if (i + j) % 4 else ([2**53 + 1 + i, None, None][j % 3]) for j in range(w)]
+                for i in range(3)]
+        cols = [{"name": n_, "type": t} for n_, t in zip(names, types)]
+        for rws in (rows, []):
+            for size in (None, 1):
+                for via in ("from_arrow", "DataFrame", "DataFrame.arrow", "generator"):
+                    if via == "DataFrame" and size is not None:
+                        continue
+                    yield {"kind": "iter", "cols": cols, "tables": [[rws[:2]], [[]], [rws[2:]]], "size": size, "via": via}
+            for size in (None, 0, 2, 4):
+                yield {"kind": "roundtrip", "names": names, "types": types, "rows": rws, "size": size}
+            yield {"kind": "roundtrip", "names": names, "types": types, "rows": rws, "size": None, "lazy": True}
+        scols = [dict(c_, type="int64", nullable=False) if j == 0 else c_ for j, c_ in enumerate(cols)]
+        srows = [[r[0] if j == 0 else r[j] for j in range(w)] for r in rows]
+        if types[0] == "int64":
+            for source in SEQ_SOURCES:
+                if source in SEQ_UNIQUE_NAMES and len(set(names)) != len(names):
+                    continue
+                yield {"kind": "seq", "source": source, "cols": scols, "tables": [[srows[:1]], [srows[1:]]],
+                       "ops": [["arrow", 1], ["names"], ["arrow", None], ["pandas", None]]}
+
+
 def _batched(ctx, cases, n=400):
     batch = []
     count = 0
@@ -3596,7 +3825,7 @@ def run(ctx):
 
     marks["before_run"] = round(ctx.budget_s - ctx.time_left(), 2)
     if ctx.tier == "quick":
-        ctx.budget_s = max(ctx.budget_s, 64)  # the exhaustive families take ~35 s; leaves ~25 s for the random ones
+        ctx.budget_s = max(ctx.budget_s, 70)  # the exhaustive families take ~42 s; leaves ~28 s for the random ones
     _batched(ctx, CORPUS)
     # several columns in one schema first: a failure that needs two different decimal types (or two uses of
     # anything cached) is then met in a case that carries both, and its replay fails on its own
@@ -3607,9 +3836,13 @@ def run(ctx):
     _batched(ctx, SCHEMA_DIFFERS)
     _batched(ctx, other_iterable_cases())
     mark("corpus+per-type+ext+many-batches")
+    n_names = _batched(ctx, name_cases())
+    mark("names")
     _batched(ctx, seq_corpus())
     n_seq = _batched(ctx, exhaustive_seq_cases())
     mark("seq-exhaustive")
+    n_sess = _batched(ctx, exhaustive_session_cases())
+    mark("seq-sessions-exhaustive")
     _batched(ctx, reuse_corpus())
     _batched(ctx, reuse_two_argument_cases())
     n_reuse = _batched(ctx, exhaustive_reuse_cases())
@@ -3631,40 +3864,43 @@ def run(ctx):
              "(%d cases); every Orso type, every ARRAY element type, every DECIMAL (p,s) with 0<=s<=p<=38 (%d cases); "
              "a catalogue of %d Arrow fields; _RowsIterator driven directly with batch sizes 1, 2, 3, 7 x every limit over every "
              "split of 0..4(5) rows into 1..3(4) tables (%d cases); every pair of calls from a 10-call alphabet on one frame "
-             "x 4 kinds of frame, each followed by an unlimited conversion (%d cases); every pair of conversions from a "
+             "x 5 kinds of frame, each followed by an unlimited conversion (%d cases); every pair of conversions from a "
              "7-conversion alphabet on ONE list / tuple / single table, sequential and interleaved, followed by an unlimited "
              "conversion, the argument compared afterwards (%d cases); convert / edit the result / convert again through "
              "every pair of entry points x 8 edits x 8 pairs of tables (same table, same Schema object, equal Schema, other typing, "
-             "without rows), and the same towards Arrow (%d cases); then random"
-             % (nmax, kmax, n_split, n_type, n_field, n_itb, n_seq, n_reuse, n_share))
+             "without rows), and the same towards Arrow (%d cases); every triple of calls from {arrow(), arrow(1), append, nbytes(), "
+             "materialize(), fetchone()} on one frame x 9 ways a frame comes to be (Arrow tables, generator, list, dictionaries, "
+             "derived eagerly / lazily), each followed by an unlimited conversion (%d cases); %d cases over column names that are "
+             "repeated / empty / not NFC / differ by case or composition only / very long, in every conversion direction; then random"
+             % (nmax, kmax, n_split, n_type, n_field, n_itb, n_seq, n_reuse, n_share, n_sess, n_names))
     _batched(ctx, big_cases(ctx), n=2)
     mark("big")
     n_iter, n_rt = ctx.scale((1500, 700), (30000, 12000))
     # every random family gets its share of what is left of the budget (the first one must not use it up)
     rem = max(ctx.time_left(), 1.0)
     done = 0
-    while done < n_iter and ctx.time_left() > max(8, 0.30 * rem):
+    while done < n_iter and ctx.time_left() > max(10, 0.50 * rem):
         k = min(300, n_iter - done)
         evaluate(ctx, [random_iter_case(ctx, quiet_known=(i % 2 == 0), ext=(i % 5 == 4)) for i in range(k)])
         done += k
     mark("random-iter")
     n_seq_r = ctx.scale(400, 8000)
     done = 0
-    while done < n_seq_r and ctx.time_left() > max(6, 0.18 * rem):
+    while done < n_seq_r and ctx.time_left() > max(6, 0.30 * rem):
         k = min(200, n_seq_r - done)
         evaluate(ctx, [random_seq_case(ctx) for _ in range(k)])
         done += k
     mark("random-seq")
     n_reuse_r = ctx.scale(300, 6000)
     done = 0
-    while done < n_reuse_r and ctx.time_left() > max(5, 0.06 * rem):
+    while done < n_reuse_r and ctx.time_left() > max(5, 0.20 * rem):
         k = min(150, n_reuse_r - done)
         evaluate(ctx, [random_reuse_case(ctx) for _ in range(k)])
         done += k
     mark("random-reuse")
     n_share_r = ctx.scale(300, 6000)
     done = 0
-    while done < n_share_r and ctx.time_left() > max(4, 0.04 * rem):
+    while done < n_share_r and ctx.time_left() > max(4, 0.14 * rem):
         k = min(150, n_share_r - done)
         evaluate(ctx, [random_share_case(ctx) for _ in range(k)])
         done += k
